@@ -52,6 +52,34 @@ Definition outcome_eqb (a b : outcome) : bool :=
   | _, _ => false
   end.
 
+(** for the correspondence only the decision is compared: allowed with which result, or not allowed
+    (whether a refusal surfaces as an authentication/authorization or as a communication error is C12's subject) *)
+Definition decision_eqb (a b : outcome) : bool :=
+  match a, b with
+  | OAllow x, OAllow y => result_eqb x y
+  | OAllow _, _ | _, OAllow _ => false
+  | _, _ => true
+  end.
+
+(** keys are compared up to a renaming: the same look-ups use equal keys in the model and in the
+    implementation (the byte layout is not part of the property; it is reported separately as drift) *)
+Fixpoint same_class (k : option string) (k' : option string) (ms os : list (option string)) : bool :=
+  match ms, os with
+  | [], [] => true
+  | m :: mr, o :: or' =>
+    Bool.eqb (option_eqb String.eqb k m) (option_eqb String.eqb k' o) && same_class k k' mr or'
+  | _, _ => false
+  end.
+
+Fixpoint key_pattern_ok (ms os : list (option string)) : bool :=
+  match ms, os with
+  | [], [] => true
+  | m :: mr, o :: or' =>
+    Bool.eqb (match m with Some _ => true | None => false end) (match o with Some _ => true | None => false end) &&
+    same_class m o mr or' && key_pattern_ok mr or'
+  | _, _ => false
+  end.
+
 Definition is_allow (o : outcome) : bool := match o with OAllow _ => true | _ => false end.
 
 Fixpoint remove_str (x : string) (l : list string) : option (list string) :=
@@ -93,12 +121,11 @@ Definition orders_ok (s : step) : bool :=
   | _ => is_nil (st_vo s)
   end.
 
-Definition sres_matches (m : sres) (o : obs) : bool :=
-  option_eqb String.eqb (sr_key m) (o_key o) && Bool.eqb (sr_hit m) (o_hit o) &&
-  Nat.eqb (sr_calls m) (o_calls o) && outcome_eqb (sr_out m) (o_out o).
+Definition sres_matches (exact : bool) (m : sres) (o : obs) : bool :=
+  (negb exact || option_eqb String.eqb (sr_key m) (o_key o)) && Bool.eqb (sr_hit m) (o_hit o) &&
+  Nat.eqb (sr_calls m) (o_calls o) && decision_eqb (sr_out m) (o_out o).
 
-Definition fresh_matches (m : outcome * nat) (o : obs) : bool :=
-  outcome_eqb (fst m) (o_fresh o) && Nat.eqb (snd m) (o_fcalls o).
+Definition fresh_matches (m : outcome * nat) (o : obs) : bool := decision_eqb (fst m) (o_fresh o).
 
 Fixpoint all2 {A B} (f : A -> B -> bool) (l : list A) (m : list B) : bool :=
   match l, m with
@@ -107,26 +134,30 @@ Fixpoint all2 {A B} (f : A -> B -> bool) (l : list A) (m : list B) : bool :=
   | _, _ => false
   end.
 
-Definition rep_ok (fx : fixes) (steps : list step) (r : option rep) : bool :=
+Definition rep_ok (exact : bool) (fx : fixes) (steps : list step) (r : option rep) : bool :=
   match r with
   | None => true
   | Some r =>
     match nth_error steps (rp_step r) with
     | None => false
     | Some s =>
-      Nat.eqb (rp_unexplained r) 0 && Nat.leb 1 (rp_distinct r) && Nat.leb (rp_distinct r) (rp_runs r) &&
+      (negb exact || Nat.eqb (rp_unexplained r) 0) && Nat.leb 1 (rp_distinct r) && Nat.leb (rp_distinct r) (rp_runs r) &&
       (negb (order_free (st_inst s) || fx1 fx) || Nat.eqb (rp_distinct r) 1)
     end
   end.
 
-Definition corr (fx : fixes) (c : case) : bool :=
+(** [exact]: compare the key bytes too (layout drift report), else keys up to renaming *)
+Definition corr_gen (exact : bool) (fx : fixes) (c : case) : bool :=
   let steps := map os_step (c_steps c) in
   let obss := map os_obs (c_steps c) in
   let H := H_tab (c_sha c) in
+  key_pattern_ok (map sr_key (run_cached fx H (c_world c) [] steps)) (map o_key obss) &&
   forallb orders_ok steps && forallb (fun s => wf_instb (st_inst s)) steps &&
-  all2 sres_matches (run_cached fx H (c_world c) [] steps) obss &&
+  all2 (sres_matches exact) (run_cached fx H (c_world c) [] steps) obss &&
   all2 fresh_matches (run_fresh (c_world c) steps) obss &&
-  rep_ok fx steps (c_rep c).
+  rep_ok exact fx steps (c_rep c).
+
+Definition corr := corr_gen false.
 
 (* ------------------------------------------------------------------ the property on the observations *)
 
@@ -198,12 +229,15 @@ Record obs2 := { o2_key : option string; o2_hit : bool; o2_calls : nat; o2_out :
 Inductive case2 :=
 | CC (sha : alist) (steps : list (cc_cfg * obs2))
 | JF (sha : alist) (kid_conf : option string) (s0 : signer) (steps : list (jstep * option obs2))
-| HC (sha : alist) (c : hc_cfg) (steps : list (hc_req * obs2))
+| HC (sha : alist) (w : hc_world) (steps : list ((hc_cfg * hc_req) * obs2))
 | JK (sha : alist) (w : jwks_world) (steps : list ((jk_cfg * jtok) * obs2)).
 
-Definition sres_matches2 (m : sres) (o : obs2) : bool :=
-  option_eqb String.eqb (sr_key m) (o2_key o) && Bool.eqb (sr_hit m) (o2_hit o) &&
-  Nat.eqb (sr_calls m) (o2_calls o) && outcome_eqb (sr_out m) (o2_out o).
+Definition sres_matches2 (exact : bool) (m : sres) (o : obs2) : bool :=
+  (negb exact || option_eqb String.eqb (sr_key m) (o2_key o)) && Bool.eqb (sr_hit m) (o2_hit o) &&
+  Nat.eqb (sr_calls m) (o2_calls o) && decision_eqb (sr_out m) (o2_out o).
+
+Definition run_matches2 (exact : bool) (ms : list sres) (os : list obs2) : bool :=
+  key_pattern_ok (map sr_key ms) (map o2_key os) && all2 (sres_matches2 exact) ms os.
 
 Fixpoint exec_obs (l : list (jstep * option obs2)) : list obs2 :=
   match l with
@@ -219,25 +253,26 @@ Fixpoint jf_shape_ok (l : list (jstep * option obs2)) : bool :=
   | _ => false
   end.
 
-Definition corr2 (fx5 fx8 : bool) (c : case2) : bool :=
+Definition corr2_gen (exact : bool) (fx5 fx8 : bool) (c : case2) : bool :=
   match c with
   | JK sha w steps =>
     let H := H_tab sha in
-    all2 sres_matches2 (jk_run H w [] (map fst steps)) (map snd steps) &&
-    forallb (fun x => outcome_eqb (jk_fresh w (fst (fst x)) (snd (fst x))) (o2_fresh (snd x))) steps
-  | HC sha cfg steps =>
+    run_matches2 exact (jk_run H w [] (map fst steps)) (map snd steps) &&
+    forallb (fun x => decision_eqb (jk_fresh w (fst (fst x)) (snd (fst x))) (o2_fresh (snd x))) steps
+  | HC sha w steps =>
     let H := H_tab sha in
-    all2 sres_matches2 (hc_run fx8 H cfg [] (map fst steps)) (map snd steps) &&
-    forallb (fun x => outcome_eqb (OAllow (hc_result cfg (fst x))) (o2_fresh (snd x))) steps
+    run_matches2 exact (hc_run fx8 H w [] (map fst steps)) (map snd steps) &&
+    forallb (fun x => decision_eqb (OAllow (hc_result w (fst (fst x)) (snd (fst x)))) (o2_fresh (snd x))) steps
   | CC sha steps =>
     let H := H_tab sha in
-    all2 sres_matches2 (cc_run H [] (map fst steps)) (map snd steps) &&
-    forallb (fun x => outcome_eqb (OAllow (cc_result (fst x))) (o2_fresh (snd x))) steps
+    run_matches2 exact (cc_run H [] (map fst steps)) (map snd steps) &&
+    forallb (fun x => decision_eqb (OAllow (cc_result (fst x))) (o2_fresh (snd x))) steps
   | JF sha kc s0 steps =>
     let H := H_tab sha in
     jf_shape_ok steps &&
-    all2 (fun (m : sres * outcome) o => sres_matches2 (fst m) o && outcome_eqb (snd m) (o2_fresh o))
-         (jrun fx5 H kc s0 [] (map fst steps)) (exec_obs steps)
+    (let r := jrun fx5 H kc s0 [] (map fst steps) in
+     run_matches2 exact (map fst r) (exec_obs steps) &&
+     all2 (fun (m : sres * outcome) o => decision_eqb (snd m) (o2_fresh o)) r (exec_obs steps))
   end.
 
 (** (P2) for client credentials: the same configuration again, caching on: no call to the token endpoint *)
@@ -260,13 +295,17 @@ Fixpoint jf_hits_from (since_reload : list (jf_cfg * jreq)) (l : list (jstep * o
   | _ :: r => jf_hits_from since_reload r
   end.
 
-(** (P2) for the RFC 7234 cache: the same request headers again, response storable: no call *)
-Fixpoint hc_hits_from (stores : bool) (earlier : list hc_req) (l : list (hc_req * obs2)) : bool :=
+(** (P2) for the RFC 7234 cache: the same request to the same endpoint again, response soundly reusable (GET, no Vary): no call *)
+Fixpoint hc_hits_from (w : hc_world) (earlier : list (hc_cfg * hc_req)) (l : list ((hc_cfg * hc_req) * obs2)) : bool :=
   match l with
   | [] => true
   | (x, o) :: r =>
-    (negb (stores && existsb (hc_req_eqb x) earlier) || Nat.eqb (o2_calls o) 0) && hc_hits_from stores (earlier ++ [x]) r
+    (negb (hc_stores true w (fst x) &&
+           existsb (fun y => hc_cfg_eqb (fst y) (fst x) && hc_req_eqb (snd y) (snd x)) earlier)
+     || Nat.eqb (o2_calls o) 0) && hc_hits_from w (earlier ++ [x]) r
   end.
+
+Definition corr2 := corr2_gen false.
 
 (** (P2) for the key cache: the same token at the same instance again, key fetched before: no call *)
 Fixpoint jk_hits_from (w : jwks_world) (earlier : list (jk_cfg * jtok)) (l : list ((jk_cfg * jtok) * obs2)) : bool :=
@@ -282,9 +321,8 @@ Definition prop2 (c : case2) : bool :=
   match c with
   | JK _ w steps =>
     forallb (fun x => outcome_eqb (o2_out (snd x)) (o2_fresh (snd x))) steps && jk_hits_from w [] steps
-  | HC _ cfg steps =>
-    forallb (fun x => outcome_eqb (o2_out (snd x)) (o2_fresh (snd x))) steps &&
-    hc_hits_from (hc_stores true cfg) [] steps   (* what may soundly be reused: GET, no Vary *)
+  | HC _ w steps =>
+    forallb (fun x => outcome_eqb (o2_out (snd x)) (o2_fresh (snd x))) steps && hc_hits_from w [] steps
   | CC _ steps => forallb (fun x => outcome_eqb (o2_out (snd x)) (o2_fresh (snd x))) steps && cc_hits_from [] steps
   | JF _ _ _ steps => forallb (fun o => outcome_eqb (o2_out o) (o2_fresh o)) (exec_obs steps) && jf_hits_from [] steps
   end.
@@ -295,7 +333,8 @@ Definition check2 (fx5 fx8 : bool) (c : case2) : verdict :=
      v_prop := prop2 c;
      v_guards := match c with
                  | JK sha _ steps => guards [(4%Z, g_jk_F4 (H_tab sha) (map fst steps))]
-                 | HC _ cfg steps => guards [(8%Z, g_F8 fx8 cfg (map fst steps)); (9%Z, g_F9 fx8 cfg (map fst steps))]
+                 | HC _ w steps => guards [(4%Z, g_hc_F4 (map fst steps)); (8%Z, g_F8 fx8 w (map fst steps));
+                                            (9%Z, g_F9 fx8 w (map fst steps))]
                  | CC _ steps => guards [(4%Z, g_cc_F4 (map fst steps))]
                  | JF sha kc s0 steps => guards [(4%Z, g_jf_F4 fx5 (H_tab sha) kc s0 (map fst steps));
                                                   (5%Z, g_F5 kc s0 (map fst steps) && negb fx5)]
@@ -308,8 +347,14 @@ Definition jrq sid sj o oj := {| j_sub_id := sid; j_sub_json := sj; j_outputs :=
 Definition sgn k g t := {| sg_kid := k; sg_gen := g; sg_thumb := t |}.
 Definition jtk sub cl iss kid gen := enc_jtoken {| jt_sub := sub; jt_claims := cl; jt_iss := iss; jt_kid := kid; jt_gen := gen |}.
 Definition cct (c : cc_cfg) := cc_result c.
-Definition hcc u m v c := {| hc_url := u; hc_method := m; hc_vary := v; hc_cacheable := c |}.
+Definition hcc u m a := {| hc_url := u; hc_method := m; hc_auth := a |}.
 Definition jkc u h t := {| jk_url := u; jk_headers := h; jk_ttl := t |}.
 Definition jtk2 i k sg sub := {| t_iss := i; t_kid := k; t_signer := sg; t_sub := sub |}.
 Definition jko (sub : string) := jk_owner_result sub.
 Definition hrq h b := {| hq_headers := h; hq_body := b |}.
+
+(** layout drift report (not a verdict of the check): [v_corr] = the keys are byte for byte the ones of the modelled layout *)
+Definition drift (fx : fixes) (c : case) : verdict :=
+  {| v_corr := corr_gen true fx c; v_prop := true; v_guards := [] |}.
+Definition drift2 (fx5 fx8 : bool) (c : case2) : verdict :=
+  {| v_corr := corr2_gen true fx5 fx8 c; v_prop := true; v_guards := [] |}.
